@@ -234,7 +234,7 @@ impl Property for C09 {
         vec!["the write is taken to happen somewhere between the start of the port cycle and the end of the OUT instruction; pixels within 8 T of that span may show either colour", "code runs in uncontended RAM; ports have an uncontended high byte unless stated (the instants are observed, not predicted)"]
     }
     fn expected_probes(&self) -> Vec<&'static str> {
-        vec!["frame_without_write", "several_writes_one_line", "write_in_retrace", "write_straddles_frame_end", "write_in_last_lines", "snapshot_border", "write_before_first_border_line", "snapshot_between_frames", "szx_fe_low_differs", "program_multi_frame_call", "write_in_unpresented_frame", "even_port_other_than_fe", "szx_taken_inside_a_frame", "screenshot_between_frames", "rejected_file_between_frames", "instant_load_through_custom_entry"]
+        vec!["frame_without_write", "several_writes_one_line", "write_in_retrace", "write_straddles_frame_end", "write_in_last_lines", "snapshot_border", "write_before_first_border_line", "snapshot_between_frames", "szx_fe_low_differs", "program_multi_frame_call", "write_in_unpresented_frame", "even_port_other_than_fe", "szx_taken_inside_a_frame", "screenshot_between_frames", "rejected_file_between_frames", "instant_load_through_custom_entry", "snapshot_saved_mid_frame"]
     }
 
     fn gen(&self, rng: &mut Rng, tier: Tier, _idx: u64) -> Scenario {
@@ -291,7 +291,8 @@ impl Property for C09 {
             } else if snap_mid && fr > 0 && rng.chance(1, 4) {
                 sc.op(*rng.pick(&["scr", "rej", "fl"]), &[rng.range(0, 1 << 20)]);
             }
-            let n = *rng.pick(&[0i64, 0, 1, 1, 2, 3, 5, 8, 12]);
+            // (now and then exactly a multiple of 256 writes, or one off, in a frame)
+            let n = if rng.chance(1, 12) { if rng.chance(2, 3) { rng.range(252, 260) } else { rng.range(508, 516) } } else { *rng.pick(&[0i64, 0, 1, 1, 2, 3, 5, 8, 12]) };
             let mut ts: Vec<i64> = vec![];
             let style = rng.below(6);
             for _ in 0..n {
@@ -309,11 +310,20 @@ impl Property for C09 {
                 };
                 ts.push(t.clamp(0, f - 1));
             }
+            if n >= 200 {
+                // (many writes: evenly spread over the part of the frame that ends inside the visible lines, so that
+                // none is skipped and the count is exact)
+                let span = first + 150 * line;
+                ts = (0..n).map(|i| 40 + i * (span - 40) / n).collect();
+            }
             ts.sort();
             for t in ts {
                 // any even port is the ULA's (OUT (C),A form: also low bytes other than 0xFE, incl. A1 = 0)
                 let lo = if rng.chance(1, 3) { rng.range(0, 127) * 2 } else { 0xFE };
                 sc.op("out", &[fr, t, rng.range(0, 7), rng.range(0, 1), (rng.u8() as i64) << 8 | lo, rng.range(0, 255)]);
+                if rng.chance(1, 30) {
+                    sc.op("save", &[]);
+                }
             }
             sc.op("frame", &[fr]);
         }
@@ -483,6 +493,16 @@ impl Property for C09 {
                     load_snap(&mut e, m128, b, fmt, fe, ft)?;
                     colour = b;
                     start_colour = b;
+                }
+                "save" => {
+                    // the host takes a snapshot in the middle of the frame (stopped behind the last write so far): a
+                    // save reads the machine, the border picture of the frame is not touched by it
+                    if frame_done {
+                        continue;
+                    }
+                    ctx.probe("snapshot_saved_mid_frame");
+                    let (rec, _out) = SimRecorder::new(RecorderPlan::default());
+                    let _ = e.save_snapshot(rustzx_core::host::SnapshotRecorder::Sna(rec));
                 }
                 "fl" => {
                     // a program with its own loader front end enters the ROM routine behind the point where the ROM
